@@ -117,7 +117,12 @@ def run_convert(spec=None, probes=None, label='', factor=1, extra_files=(), same
                     np.save(os.path.join(str(out_dir), fn), arr)
                 ret = c.convert(out_dir, force=True, label=label, ampfactor=factor)
             else:
-                ret = c.convert(out_dir, label=label, ampfactor=factor)
+                ckw = {}
+                if label:
+                    ckw['label'] = label
+                if factor != 1:
+                    ckw['ampfactor'] = factor
+                ret = c.convert(out_dir, **ckw)       # defaults: no label, unit factor 1
             if ret is not None:
                 res['returned'] = model_view(ret)
                 ret.close()
